@@ -526,3 +526,12 @@ func (w *World) dbiNames(i int) string {
 
 func makeTempDir() (string, error) { return os.MkdirTemp(os.Getenv("VERIF_TMP"), "verif-w-") }
 func removeDir(d string)           { os.RemoveAll(d) }
+
+// newSyncerWith creates a Syncer for an instance with an explicit configuration.
+func newSyncerWith(w *World, in *WInst, c config.Config) (*syncer.Syncer, error) {
+	s, err := syncer.New("default", in.Env, w.Bucket, c, c.LMDBs["default"], syncer.Options{})
+	if err == nil {
+		in.S = s
+	}
+	return s, err
+}
